@@ -258,6 +258,41 @@ def systematic (emit : String → IO Unit) (full : Bool) : IO Unit := do
               let st := mkStream 1 0 (k % 4) ((k / 4) % 4) (k % 3) 1 7 0 0 ws eol1 eol2 0 0 p
               emit (sceneCase 10 [st, mkPlain 7 0 (if neg then 1 else 0) n [k % 5, k % 3, 0, k % 2, k % 4] 0, { st with f := st.f.set 0 2 }] [(7, 0)])
 
+/-- Length references by generation: `/Length 7 g R` with g ∈ {0, 1, 65535} against contexts that hold
+    the exact identifier (7,g), only the same number under another generation, both (with different
+    values: exactly one of them is the payload length), or neither; the targets defined before the
+    stream (already registered when it is parsed) or after it (forward reference, then the stream is
+    parsed again under a new number).  The expected outcome is `LenRes` with look-up by the exact
+    identifier: another generation of the same number is a different object. -/
+def generations (emit : String → IO Unit) : IO Unit := do
+  let mut k := 0
+  for p in [bs "hello", bs "endstream endobj xx", ([] : Bytes), bs "x\n"] do
+    for rg in [0, 1, 65535] do
+      for og in (if rg == 0 then [1, 65535] else [0, (if rg == 1 then 65535 else 1)]) do
+        for ctxKind in List.range 6 do
+          for eol1 in [0, 1] do
+            k := k + 1
+            let l := p.length
+            let ws := [k % 9, k % 7, k % 5, k % 4, k % 3, k % 8]
+            let pw := [k % 5, k % 3, 0, k % 2, k % 4]
+            -- targets: (generation, value)
+            let targets : List (Nat × Nat) := match ctxKind with
+              | 0 => []
+              | 1 => [(rg, l)]
+              | 2 => [(og, l)]
+              | 3 => [(rg, l), (og, l + 1)]
+              | 4 => [(rg, l + 1), (og, l)]
+              | _ => [(og, l), (rg, l)]
+            let tItems := targets.map fun (g, v) => mkPlain 7 g 0 v pw 0
+            let st (num : Nat) := mkStream num 0 (k % 4) ((k / 4) % 4) (k % 3) 1 7 rg 0 ws eol1 (k % 4) 0 0 p
+            -- registered before the stream is parsed
+            emit (sceneCase 10 (tItems ++ [st 1]) [(7, rg), (7, og)])
+            -- forward: the stream first, then the targets, then the stream again
+            emit (sceneCase 10 ([st 1] ++ tItems ++ [st 2]) [(7, rg), (7, og)])
+            -- the stream object itself carries a non-zero generation
+            if ctxKind == 2 then
+              emit (sceneCase 10 (tItems ++ [{ st 1 with f := (st 1).f.set 1 rg }]) [(7, rg), (7, og), (1, 0)])
+
 def randPayload (r : Rng) : Bytes × Rng :=
   let (k, r) := r.nat 10
   if k < 4 then
@@ -276,8 +311,8 @@ def randPayload (r : Rng) : Bytes × Rng :=
 def randItem (r : Rng) (ids : List Nat) : Item × Rng :=
   let (isS, r) := r.nat 4
   let (num, r) := r.pick (if ids.isEmpty then [1] else ids)
-  let (gen, r) := r.nat 2
-  let gen := if gen == 1 then 0 else 0
+  let (gen, r) := r.nat 8
+  let gen := if gen == 6 then 1 else if gen == 7 then 65535 else 0
   let (ws, r) := (List.range 6).foldl (fun (acc : List Nat × Rng) _ => let (x, r) := acc.2.nat 9; (x :: acc.1, r)) ([], r)
   let (defect, r) := r.nat 10
   if isS == 0 then
@@ -300,16 +335,18 @@ def randItem (r : Rng) (ids : List Nat) : Item × Rng :=
     let style := if style < 5 then 0 else style - 4
     let (tgt, r) := r.pick (if ids.isEmpty then [1] else ids)
     let (oth, r) := r.nat 9
+    let (rgen, r) := r.nat 6
     let (eol1, r) := r.nat 10
     let eol1 := if eol1 < 6 then eol1 % 2 else eol1 - 4
     let (eol2, r) := r.nat 10
     let eol2 := if eol2 < 7 then eol2 % 4 else eol2 - 3
     let (es, eo) := match defect with | 1 => (1, 0) | 2 => (2, 0) | 3 => (0, 1) | 4 => (0, 2) | 5 => (3, 0) | 6 => (0, 3) | _ => (0, 0)
     let (lkK, la, lb) : Nat × Nat × Nat :=
-      if lk < 4 then (0, n, style) else if lk < 8 then (1, tgt, 0) else if lk == 8 then (2, 0, 0) else (3, oth, 0)
+      if lk < 4 then (0, n, style) else if lk < 8 then (1, tgt, if rgen == 4 then 1 else if rgen == 5 then 65535 else 0) else if lk == 8 then (2, 0, 0) else (3, oth, 0)
     (mkStream num gen pre post order lkK la lb lkey ws eol1 eol2 es eo p, r)
 
 def gen (seed n : Nat) (tier : String) (emit : String → IO Unit) : IO Unit := do
+  generations emit
   systematic emit (tier == "thorough")
   let mut r := Rng.mk' seed
   for _ in List.range n do
@@ -326,7 +363,7 @@ def gen (seed n : Nat) (tier : String) (emit : String → IO Unit) : IO Unit := 
     let items := if fix == 0 then items else items.map fun it =>
       if !it.isStream && it.g 2 == 0 then { it with f := it.f.set 3 plen } else it
     let (d, r4) := r3.nat 6
-    emit (sceneCase (if d == 0 then 3 else 10) items [(1, 0), (2, 0), (9, 9)])
+    emit (sceneCase (if d == 0 then 3 else 10) items [(1, 0), (2, 0), (1, 1), (2, 65535), (9, 9)])
     -- malformed: one byte changed / removed, or a truncation, of the rendered scene
     let (buf, lays) := renderScene items 0
     let (pos, r5) := r4.nat (buf.length + 1)
